@@ -12,10 +12,10 @@ BaseSp == [ds |-> DS, de |-> DE, tl |-> TL, rm |-> RM]
 
 OpsFor(sp) ==
   <<[op |-> "clean"], [op |-> "list_json"],
-    [op |-> "edit", src |-> Respell(Doc \o <<NL>>, BaseSp, sp)],
+    [op |-> "edit", src |-> Respell(GenDoc \o <<NL>>, BaseSp, sp)],
     [op |-> "config", ds |-> sp.ds, de |-> sp.de, tl |-> sp.tl, rm |-> sp.rm],
     [op |-> "clean"], [op |-> "list_json"]>>
 
 EmitPairs == Complete =>
-  \A j \in 1..Len(Spellings) : EmitRec([id |-> "", src |-> Doc \o <<NL>>, ops |-> OpsFor(Spellings[j])])
+  \A j \in 1..Len(Spellings) : EmitRec([id |-> "", src |-> GenDoc \o <<NL>>, ops |-> OpsFor(Spellings[j])])
 =============================================================================
